@@ -1,7 +1,7 @@
 (* Extraction of the C01 mechanism models for the correspondence driver. ExtrOcamlBasic only. *)
 Require Import ExtrOcamlBasic.
-Require Import XV.XsltEventsDefs XV.XsltVarsDefs.
+Require Import XV.XsltEventsDefs XV.XsltVarsDefs XV.XsltFactsModel.
 Extraction "extracted/xslt_model.ml"
   BinNums.positive BinNums.N BinNums.Z
   machine_tree canon_list spec_tree ops_of
-  impl_run spec_run ok_root.
+  impl_run spec_run ok_root reset_variant.
